@@ -6,7 +6,7 @@ FILES = ['prysm/polynomials/jacobi.py', 'prysm/polynomials/cheby.py', 'prysm/pol
          'prysm/polynomials/hermite.py', 'prysm/polynomials/laguerre.py', 'prysm/polynomials/dickson.py',
          'prysm/polynomials/zernike.py', 'prysm/polynomials/qpoly.py', 'prysm/polynomials/xy.py',
          'prysm/polynomials/__init__.py', 'prysm/mathops.py']
-FUNCTIONS = ['polynomials.jacobi.jacobi/recurrence_abc', 'polynomials.legendre.legendre', 'polynomials.cheby.cheby1..4',
+FUNCTIONS = ['polynomials.jacobi.jacobi/jacobi_seq/recurrence_abc', 'polynomials.*_seq (legendre, cheby1-4, hermite_He/H, laguerre, dickson1/2)', 'polynomials.legendre.legendre', 'polynomials.cheby.cheby1..4',
              'polynomials.hermite.hermite_He/hermite_H', 'polynomials.laguerre.laguerre', 'polynomials.dickson.dickson1/2',
              'polynomials.zernike.zernike_nm/zernike_norm', 'polynomials.qpoly.Qbfs/Qcon/Q2d (+f,g,h,F,G,abc tables)',
              'polynomials.xy.xy', 'polynomials.hopkins', 'mathops.kronecker/gamma/sign']
@@ -16,7 +16,7 @@ EXPLANATION = ('Each family routine is executed on a symbolic evaluation point a
                'with the textbook definition written independently of any recurrence (explicit finite sums, trigonometric '
                'definitions via x=(z+1/z)/2, functional definitions for Dickson); orthogonality is decided with exact moment '
                'functionals applied to the symbolic polynomials.')
-BOUNDS = {'quick': 'jacobi n<=8 (alpha,beta symbolic); one-parameter families n<=14; zernike n<=6 (values), Gram n<=5; '
+BOUNDS = {'quick': 'jacobi n<=8 (alpha,beta symbolic); one-parameter families n<=14; sequence forms on 5 dense/sparse order lists up to n=5 (6 lists up to n=8 thorough); zernike n<=6 (values), Gram n<=5; '
                    'Qbfs/Qcon n<=5, Q2d n<=6 for |m|=1, n<=3 for |m| in {2,3}',
           'thorough': 'jacobi n<=12; one-parameter families n<=24; zernike n<=10, Gram n<=7; Qbfs/Qcon n<=8; Q2d n<=8 for |m|=1, n<=5 for |m|<=4'}
 OUTSIDE = 'orders above the bound; floating-point stability of the recurrences; Q2d normalisation constant is only required to be order-independent'
@@ -35,6 +35,13 @@ def configs(tier):
         step = 1 if q else 1
         for n in range(0, n1 + 1, step):
             out.append({'name': '%s-n%d' % (fam, n), 'family': fam, 'n': n})
+    # the sequence forms against the same definitions, dense and sparse order lists (a recurrence that only advances when an order is
+    # emitted, or that restarts wrongly after its unrolled low orders, shows on lists with gaps)
+    N = 5 if q else 8
+    lists = [list(range(N + 1)), [N], [0, 1, N], [1, 3, N], [3, N - 1, N], [0, 2, 4]]
+    for fam in ('jacobi', 'legendre', 'cheby1', 'cheby2', 'cheby3', 'cheby4', 'hermite_He', 'hermite_H', 'laguerre', 'dickson1', 'dickson2'):
+        for li, ns in enumerate(lists if not q else lists[:5]):
+            out.append({'name': '%s-seq-%s' % (fam, '_'.join(map(str, ns))), 'family': fam, 'orders': ns})
     zn = 6 if q else 10
     for n in range(0, zn + 1):
         for m in range(-n, n + 1, 2):
@@ -134,67 +141,15 @@ def run(cfg, H):
     n = cfg.get('n')
     P = H.mod('prysm.polynomials')
     half = H.frac(1, 2)
-    if fam == 'jacobi':
-        a = H.param('alpha')
-        b = H.param('beta')
-        x = H.rarray('x', (2,))
-        out = P.jacobi(n, a, b, x)
-        ref = 0
-        for s in range(n + 1):
-            ref = ref + gbinom(H, n + a, n - s) * gbinom(H, n + b, s) * ((x - 1) * half) ** s * ((x + 1) * half) ** (n - s)
-        H.eq('jacobi', out, ref)
-    elif fam == 'legendre':
-        x = H.rarray('x', (2,))
-        out = P.legendre(n, x)
-        ref = 0
-        for k in range(n // 2 + 1):
-            ref = ref + (-1) ** k * comb(n, k) * comb(2 * n - 2 * k, n) * x ** (n - 2 * k)
-        H.eq('legendre', out, ref * H.frac(1, 2 ** n))
-    elif fam in ('cheby1', 'cheby2', 'cheby3', 'cheby4'):
-        th = H.param('theta')
-        pi = H.pi
-        z = H.E(th / pi)
-        zi = H.E(-th / pi)
-        w = H.E(th / (2 * pi))
-        wi = H.E(-th / (2 * pi))
-        x = H.asarray([(z + zi) * half])
-        out = getattr(P, fam)(n, x)
-        if fam == 'cheby1':
-            H.eq(fam, out, H.asarray([(z ** n + zi ** n) * half]))
-        elif fam == 'cheby2':
-            H.eq(fam, out * (z - zi), H.asarray([z ** (n + 1) - zi ** (n + 1)]))
-        elif fam == 'cheby3':
-            H.eq(fam, out * (w + wi), H.asarray([w ** (2 * n + 1) + wi ** (2 * n + 1)]))
+    if fam in SCALAR_FAMILIES:
+        env = family_env(H, fam)
+        if 'orders' in cfg:
+            outs = family_call(P, fam + '_seq', cfg['orders'], env)
+            H.holds('%s_seq returns one array per requested order' % fam, len(list(outs)) == len(cfg['orders']))
+            for nn, out in zip(cfg['orders'], outs):
+                family_compare(H, fam, nn, out, env, '%s_seq[n=%d]' % (fam, nn))
         else:
-            H.eq(fam, out * (w - wi), H.asarray([w ** (2 * n + 1) - wi ** (2 * n + 1)]))
-    elif fam in ('hermite_He', 'hermite_H'):
-        x = H.rarray('x', (2,))
-        out = getattr(P, fam)(n, x)
-        ref = 0
-        for m in range(n // 2 + 1):
-            c = H.frac((-1) ** m * factorial(n), factorial(m) * factorial(n - 2 * m))
-            if fam == 'hermite_He':
-                ref = ref + c * x ** (n - 2 * m) * H.frac(1, 2 ** m)
-            else:
-                ref = ref + c * (2 * x) ** (n - 2 * m)
-        H.eq(fam, out, ref + 0 * x)
-    elif fam == 'laguerre':
-        a = H.param('alpha')
-        x = H.rarray('x', (2,))
-        out = P.laguerre(n, a, x)
-        ref = 0 * x
-        for i in range(n + 1):
-            ref = ref + (-1) ** i * gbinom(H, n + a, n - i) * x ** i * H.frac(1, factorial(i))
-        H.eq(fam, out, ref)
-    elif fam in ('dickson1', 'dickson2'):
-        a = H.param('alpha')
-        u = H.param('u')
-        x = H.asarray([u + a / u])
-        out = getattr(P, fam)(n, a, x)
-        if fam == 'dickson1':
-            H.eq(fam, out, H.asarray([u ** n + (a / u) ** n]))
-        else:
-            H.eq(fam, out * (u - a / u), H.asarray([u ** (n + 1) - (a / u) ** (n + 1)]))
+            family_compare(H, fam, n, family_call(P, fam, n, env), env, fam)
     elif fam == 'zernike':
         m = cfg['m']
         r = H.rarray('r', (1,))
@@ -267,6 +222,87 @@ def run(cfg, H):
         out = P.hopkins(a, b, c, r, t, hh)
         ang = H.sin(abs(a) * t) if a < 0 else H.cos(a * t)
         H.eq('hopkins', out, ang * r ** b * hh ** c)
+
+
+SCALAR_FAMILIES = ('jacobi', 'legendre', 'cheby1', 'cheby2', 'cheby3', 'cheby4', 'hermite_He', 'hermite_H', 'laguerre', 'dickson1', 'dickson2')
+
+
+def family_env(H, fam):
+    half = H.frac(1, 2)
+    e = {}
+    if fam == 'jacobi':
+        e.update(a=H.param('alpha'), b=H.param('beta'), x=H.rarray('x', (2,)))
+    elif fam in ('legendre', 'hermite_He', 'hermite_H'):
+        e.update(x=H.rarray('x', (2,)))
+    elif fam.startswith('cheby'):
+        th = H.param('theta')
+        pi = H.pi
+        e.update(z=H.E(th / pi), zi=H.E(-th / pi), w=H.E(th / (2 * pi)), wi=H.E(-th / (2 * pi)))
+        e['x'] = H.asarray([(e['z'] + e['zi']) * half])
+    elif fam == 'laguerre':
+        e.update(a=H.param('alpha'), x=H.rarray('x', (2,)))
+    elif fam.startswith('dickson'):
+        a = H.param('alpha')
+        u = H.param('u')
+        e.update(a=a, u=u, x=H.asarray([u + a / u]))
+    return e
+
+
+def family_call(P, name, n, e):
+    f = getattr(P, name)
+    fam = name[:-4] if name.endswith('_seq') else name
+    if fam == 'jacobi':
+        return f(n, e['a'], e['b'], e['x'])
+    if fam == 'laguerre' or fam.startswith('dickson'):
+        return f(n, e['a'], e['x'])
+    return f(n, e['x'])
+
+
+def family_compare(H, fam, n, out, e, label):
+    half = H.frac(1, 2)
+    x = e['x']
+    if fam == 'jacobi':
+        a, b = e['a'], e['b']
+        ref = 0
+        for s in range(n + 1):
+            ref = ref + gbinom(H, n + a, n - s) * gbinom(H, n + b, s) * ((x - 1) * half) ** s * ((x + 1) * half) ** (n - s)
+        H.eq(label, out, ref + 0 * x)
+    elif fam == 'legendre':
+        ref = 0
+        for k in range(n // 2 + 1):
+            ref = ref + (-1) ** k * comb(n, k) * comb(2 * n - 2 * k, n) * x ** (n - 2 * k)
+        H.eq(label, out, ref * H.frac(1, 2 ** n) + 0 * x)
+    elif fam in ('cheby1', 'cheby2', 'cheby3', 'cheby4'):
+        z, zi, w, wi = e['z'], e['zi'], e['w'], e['wi']
+        if fam == 'cheby1':
+            H.eq(label, out, H.asarray([(z ** n + zi ** n) * half]))
+        elif fam == 'cheby2':
+            H.eq(label, out * (z - zi), H.asarray([z ** (n + 1) - zi ** (n + 1)]))
+        elif fam == 'cheby3':
+            H.eq(label, out * (w + wi), H.asarray([w ** (2 * n + 1) + wi ** (2 * n + 1)]))
+        else:
+            H.eq(label, out * (w - wi), H.asarray([w ** (2 * n + 1) - wi ** (2 * n + 1)]))
+    elif fam in ('hermite_He', 'hermite_H'):
+        ref = 0
+        for m in range(n // 2 + 1):
+            c = H.frac((-1) ** m * factorial(n), factorial(m) * factorial(n - 2 * m))
+            if fam == 'hermite_He':
+                ref = ref + c * x ** (n - 2 * m) * H.frac(1, 2 ** m)
+            else:
+                ref = ref + c * (2 * x) ** (n - 2 * m)
+        H.eq(label, out, ref + 0 * x)
+    elif fam == 'laguerre':
+        a = e['a']
+        ref = 0 * x
+        for i in range(n + 1):
+            ref = ref + (-1) ** i * gbinom(H, n + a, n - i) * x ** i * H.frac(1, factorial(i))
+        H.eq(label, out, ref)
+    elif fam in ('dickson1', 'dickson2'):
+        a, u = e['a'], e['u']
+        if fam == 'dickson1':
+            H.eq(label, out, H.asarray([u ** n + (a / u) ** n]))
+        else:
+            H.eq(label, out * (u - a / u), H.asarray([u ** (n + 1) - (a / u) ** (n + 1)]))
 
 
 def zernike_def(H, n, m, r, t, norm):
